@@ -64,6 +64,11 @@ NUMBERS = [
     (b'#', b'1D+30'), (b'#', b'1.23456789012345D-5'),
 ]
 ITEMS = [('s', s) for s in STRINGS] + [('n', t, lit) for t, lit in NUMBERS]
+# column sweep: records whose items end at, just before and just after every multiple of 256
+# characters on the line (the column counter of a text file is a byte that wraps)
+COL_LENGTHS = list(range(244, 256))
+COL_NUMBERS = [b'7', b'42', b'123', b'-1234']
+ALL_ITEMS = ITEMS + [('s', b'c' * n) for n in COL_LENGTHS] + [('n', b'%', lit) for lit in COL_NUMBERS] + [('s', b'tail')]
 LINES = [b'', b'a', b'a,b', b' lead', b'trail ', b'q"q', b'"quoted"', b'x' * 254, b'x' * 255]
 
 
@@ -337,21 +342,21 @@ def work_write_input(shard):
     w = Worker(sl)
     try:
         # render all number texts first (also the sanity check of the representation)
-        for it in ITEMS:
+        for it in ALL_ITEMS:
             if it[0] == 'n':
                 text, bad = _numtext(w, it)
                 if bad:
                     part.violation('write/number-representation/%s' % it[1].decode(), bad,
-                                   {'items': [ITEMS.index(it)], 'shape': 'one', 'cuts': [1], 'sl': sl})
+                                   {'items': [ALL_ITEMS.index(it)], 'shape': 'one', 'cuts': [1], 'sl': sl})
         for idxs, shape, cuts in cases:
-            items = [ITEMS[i] for i in idxs]
+            items = [ALL_ITEMS[i] for i in idxs]
             case = {'items': list(idxs), 'shape': shape, 'cuts': list(cuts), 'sl': sl}
             run_write_input(part, w, items, shape, cuts, case)
             part.n += 1
             part.traces += 1
             for kd in (set(_kind(i) for i in items) or {'none'}):
                 part.classes.add('%s|%s|%d|%s' % (kd, shape, len(cuts), 'sl' if sl else 'nl'))
-        part.sample({'items': [repr(ITEMS[i][-1][:12]) for i in cases[0][0]], 'shape': cases[0][1],
+        part.sample({'items': [repr(ALL_ITEMS[i][-1][:12]) for i in cases[0][0]], 'shape': cases[0][1],
                      'cuts': list(cases[0][2]), 'sl': sl})
     finally:
         w.done()
@@ -534,6 +539,25 @@ def legs(ctx):
                    bound='all %d cases: item sequences of length <=%d over %d items (8 strings, 10 numbers) x '
                          'statement shape x all cuts into <=3 OPEN sessions, x soft_linefeed off/on' % (
                              len(cases) * 2, maxlen, len(ITEMS))))
+    base = len(ITEMS)
+    longs = list(range(base, base + len(COL_LENGTHS)))
+    nums = list(range(base + len(COL_LENGTHS), base + len(COL_LENGTHS) + len(COL_NUMBERS)))
+    tail = len(ALL_ITEMS) - 1
+    ccases = []
+    for a in longs:
+        for n in nums:
+            ccases.append(((a, n, tail), 'one', (3,)))
+            ccases.append(((n, a, tail), 'one', (3,)))
+            ccases.append(((n, a, n, a, tail), 'one', (5,)))
+        for b in (longs if not ctx.quick else longs[-4:]):
+            ccases.append(((a, b, tail), 'one', (3,)))
+            ccases.append(((a, b, nums[2], tail), 'one', (2, 2)))
+    out.append(Leg('write-column', [(sl, ch) for sl in (False, True) for ch in chunked(ccases, 40)], work_write_input,
+                   exhaustive=True,
+                   bound='all %d records: strings of %d..%d characters x 4 numbers of 1-5 characters in 3 orders, and '
+                         'pairs of such strings, written by one WRITE# (items ending at every offset around each multiple '
+                         'of 256 characters on the line), x soft_linefeed off/on' % (
+                             len(ccases) * 2, COL_LENGTHS[0], COL_LENGTHS[-1])))
     byts = [b for b in range(1, 256) if b not in (0x1a, 0x22)]
     out.append(Leg('write-bytes', [(sl, ch) for sl in (False, True) for ch in chunked(byts, 8)],
                    work_write_bytes, exhaustive=True,
@@ -559,7 +583,7 @@ def replay(ctx, leg, case):
     w = Worker(sl)
     try:
         if leg == 'write-input':
-            items = [ITEMS[i] for i in case['items']]
+            items = [ALL_ITEMS[i] for i in case['items']]
             for it in items:
                 if it[0] == 'n':
                     text, bad = _numtext(w, it)
